@@ -608,8 +608,9 @@ func raceSolvers(file, alt string, timeoutS int, all bool) (SolverResult, []Solv
 		if !launchedAlt && alt != "" {
 			launchedAlt = true
 			start("z3-new", alt, "+full")
+			start("z3", alt, "+full")
 			start("cvc5", alt, "+full")
-			pending += 2
+			pending += 3
 		}
 	}
 	if all {
